@@ -272,6 +272,35 @@ def r2_effect_tables(ctx):
                 any((gg.callee or "").endswith("RuntimeError::new") for k in ctx.lib.closures_of(rt.id) for gg in k.calls() if v == "ReadLine")
             need = "Impure" if (io or mut) else "PureMayTrap" if err else "PureNoTrap"
             got = (gtab.get(v) or ["?"])[0].split("::")[-1]
+            errs = [c for c in rt.calls() if c.block in region and c.callee in ("runtime::RuntimeError::new", "runtime::RuntimeError::new_with_extras")]
+            if need == "PureMayTrap" and ORDER.get(got, -1) < 1 and errs and all("TypeMismatch" in sh(ne(rt.deep(c.args[0]))) for c in errs):
+                # the arm fails only on an argument of the wrong run-time type: classify_expr may answer that itself, by
+                # joining MayTrap for this built-in unless the argument's static type is the right one
+                ce_ = ctx.need("resolver::Resolver::classify_expr")
+                typed_join = False
+                for cj in ce_.calls_to(JOIN):
+                    if const_class(ce_, cj.args[1]) not in ("PureMayTrap", "Impure"):
+                        continue
+                    names, typed = set(), False
+                    for S7, al7 in ce_.constraints(cj.block):
+                        s7 = ce_.switch_info(S7)
+                        d7 = sh(ne(ce_.deep(ce_.blocks[S7]["t"]["d"])))
+                        if s7["kind"] == "discr" and s7["ty"].endswith("GlobalBuiltin"):
+                            names |= label_names(ce_, S7, al7, s7)
+                        if s7["kind"] == "multi" and 0 not in al7:
+                            from .c02 import matches_true_set
+                            names |= matches_true_set(ce_, s7)
+                        if "infer_expr_type" in d7:
+                            typed = True
+                        for mclo in re.finditer(r"\{closure#(\d+)\}", d7):
+                            gclo = ctx.lib.fns.get("%s::{closure#%s}" % (ce_.id, mclo.group(1)))
+                            if gclo is not None and any((cc.callee or "").endswith("infer_expr_type") for cc in gclo.calls()):
+                                typed = True
+                    if v in names and typed:
+                        typed_join = True
+                if typed_join:
+                    ctx.ok("global|%s" % v, rt.where(S), "fails only on an argument of the wrong type; classify_expr joins MayTrap for it unless the argument's static type fits")
+                    continue
             if ORDER.get(got, -1) >= ORDER[need]:
                 ctx.ok("global|%s" % v, rt.where(S), "runtime arm needs %s, table says %s" % (need, got))
             else:
@@ -349,23 +378,58 @@ def r2_effect_tables(ctx):
         return
     ev_regs = variant_regions(ev, S0, si0)
     ce_regs = variant_regions(ce, C0, ci0)
+
+    def err_kind(c):
+        return sh(ne(ev.deep(c.args[0]))) if c.args else "?"
+
+    def typed_edges(region):
+        """Edges of classify_expr (inside region) taken on the *positive* outcome of a test on inferred static types: a switch
+        whose scrutinee derives from infer_expr_type, or a bool assigned in arms that such tests decide (`operands_fit`)."""
+        out, sets = [], []
+        for S3 in sorted(region):
+            if ce.blocks[S3]["t"]["k"] != "switch":
+                continue
+            d = sh(ne(ce.deep(ce.blocks[S3]["t"]["d"])))
+            si3 = ce.switch_info(S3)
+            typed = "infer_expr_type" in d
+            if si3["kind"] in ("multi", "place"):
+                l3 = si3["local"] if si3["kind"] == "multi" else si3["place"]["l"]
+                for (bi, kk, st) in ce.whole_defs(l3):
+                    for S4, lab in ce.deciding(bi):
+                        if "infer_expr_type" in sh(ne(ce.deep(ce.blocks[S4]["t"]["d"]))):
+                            typed = True
+                if si3["kind"] == "multi":
+                    from .c02 import matches_true_set
+                    ts = matches_true_set(ce, si3)
+                    if ts:
+                        sets.append(ts)
+            if typed:
+                out += [(S3, lab) for lab, _ in ce.succ[S3] if lab != 0]
+        return out, sets
+
+    def static_sets(region):
+        """The sets of ValueType variants named by `matches!(.., Some(A | B | ..))` tests inside the region."""
+        found = []
+        for S3 in sorted(region):
+            if ce.blocks[S3]["t"]["k"] != "switch":
+                continue
+            si3 = ce.switch_info(S3)
+            if si3["kind"] == "discr" and si3["ty"].endswith("ValueType"):
+                explicit = {si3["vars"].get(lab) for lab, _t in ce.succ[S3] if lab != "else"}
+                found.append({x for x in explicit if x})
+        return found
     for v in sorted(ev_regs):
         traps = [c for c in ev.calls() if c.block in ev_regs[v] and c.callee == "runtime::RuntimeError::new"]
         if not traps or v == "Call":
             continue
-        # operator restriction of the trapping sites
-        ops = set()
-        for t in traps:
-            for S5, al in ev.constraints(t.block):
-                s5 = ev.switch_info(S5)
-                if s5["kind"] == "discr" and s5["ty"].endswith("BinaryOp"):
-                    names = label_names(ev, S5, al, s5)
-                    ops = names if not ops else ops & names if False else ops | names
+        value_traps = [c for c in traps if "TypeMismatch" not in err_kind(c)]
+        type_traps = [c for c in traps if "TypeMismatch" in err_kind(c)]
         strong = [c for c in ce.calls_to(JOIN) if c.block in ce_regs.get(v, ()) and const_class(ce, c.args[1]) in ("PureMayTrap", "Impure")]
         if not strong:
             ctx.bad("expr|%s" % v, ce.where(C0), "eval_expr's %s arm can return a runtime error but classify_expr's %s arm never joins PureMayTrap" % (v, v))
             continue
-        if v == "Binary":
+        entry = [tgt for lab, tgt in ce.succ[C0] if v in label_names(ce, C0, [lab], ci0)]
+        if v == "Binary" and value_traps:
             cls_ops = set()
             for c in strong:
                 for S6, al in ce.constraints(c.block):
@@ -376,7 +440,7 @@ def r2_effect_tables(ctx):
                     elif s6["kind"] == "discr" and s6["ty"].endswith("BinaryOp"):
                         cls_ops |= label_names(ce, S6, al, s6)
             trap_ops = set()
-            for t in traps:
+            for t in value_traps:
                 best = None
                 for S5, al in ev.constraints(t.block):
                     s5 = ev.switch_info(S5)
@@ -384,8 +448,8 @@ def r2_effect_tables(ctx):
                         nm = label_names(ev, S5, al, s5)
                         best = nm if best is None else best & nm
                 trap_ops |= best or set()
-            # for each trapping operator every path through the arm must join >= MayTrap (an exemption that
-            # depends on the operand's value cannot be verified here and fails closed)
+            # for each operator that can fail on a *value* every path through the arm must join >= MayTrap (an exemption
+            # that depends on the operand's value cannot be verified here and fails closed)
             from ..tables import peval
             leaky = []
             for opn in sorted(trap_ops):
@@ -398,18 +462,72 @@ def r2_effect_tables(ctx):
                         break
             if leaky:
                 ctx.bad("expr|Binary|exempt|%s" % ",".join(leaky), ce.where(C0), "classify_expr has a path on which `%s` is not classified as may-trap although the runtime returns DivisionByZero for it depending on the divisor's value: an unused division can be pruned together with its error" % "/".join(x.lower() for x in leaky))
-            elif trap_ops <= cls_ops:
-                ctx.ok("expr|Binary", ce.where(C0), "runtime traps on %s, classified MayTrap on %s on every path" % (sorted(trap_ops), sorted(cls_ops)))
+            elif trap_ops <= cls_ops or not cls_ops:
+                ctx.ok("expr|Binary", ce.where(C0), "runtime fails on a value for %s; classified MayTrap on every path for those" % sorted(trap_ops))
             else:
                 ctx.bad("expr|Binary|%s" % ",".join(sorted(trap_ops - cls_ops)), ce.where(C0), "the runtime can fail on %s but classify_expr marks only %s as may-trap" % (sorted(trap_ops), sorted(cls_ops)))
-        else:
+        elif value_traps:
             # unconditional in the region: every path through the arm must join >= MayTrap
-            entry = [tgt for lab, tgt in ce.succ[C0] if v in label_names(ce, C0, [lab], ci0)]
             r = ce.reach(entry, removed_nodes=[c.block for c in strong] + [C0])
             if r & set(ce.exits()):
                 ctx.bad("expr|%s|path" % v, ce.where(C0), "a path through classify_expr's %s arm avoids join(PureMayTrap)" % v)
             else:
                 ctx.ok("expr|%s" % v, ce.where(C0), "every path joins >= PureMayTrap")
+        if type_traps:
+            # A run-time type mismatch depends on the operands' kinds.  The arm may stay trap-free only on the positive side of
+            # a test on the operands' *static* types, and the types it lets through must be ones for which the runtime cannot
+            # answer with a mismatch (checked against the runtime's own table below).
+            if not (ce.reach(entry, removed_nodes=[c.block for c in strong] + [C0]) & set(ce.exits())):
+                ctx.ok("expr|%s|type-trap" % v, ce.where(C0), "every path joins >= PureMayTrap, whatever the operands' static types")
+                continue
+            tedges, tsets = typed_edges(ce_regs.get(v, ()))
+            r = ce.reach(entry, removed_nodes=[c.block for c in strong] + [C0], removed_edges=tedges)
+            if r & set(ce.exits()):
+                ctx.bad("expr|%s|type-trap" % v, ce.where(C0), "eval_expr's %s arm answers operands of the wrong run-time type with Type mismatch, but classify_expr lets the expression keep PureNoTrap on a path that no test of the operands' static types guards: an unused `make u get <%s on a parameter>` is pruned together with its error" % (v, v.lower()))
+                continue
+            exempt = set()
+            for ts in static_sets(ce_regs.get(v, ())) + tsets:
+                exempt |= {t for t in ts if t in ("Number", "String", "Bool", "Null", "Array", "Dynamic", "ProcessCommand", "ProcessResult")}
+            exempt -= set()
+            kind_of = {"Number": "Number", "String": "Str", "Bool": "Bool", "Null": "Null", "Array": "Array"}
+            from ..tables import peval as _pe
+            problems = []
+            if v == "Binary":
+                from .c09 import binary_tables
+                acc = binary_tables(ctx) or {}
+                for T in sorted(exempt):
+                    if T not in kind_of:
+                        problems.append("%s (not a concrete type)" % T)
+                        continue
+                    for op in ctx.lib.variants("syntax::parser::BinaryOp"):
+                        if not (acc.get(op) or {}).get((T, T)):
+                            continue        # rejected statically: never runs
+                        known = {"expr": "Binary", "op": op}
+                        known.update({"l": kind_of[T], "r": kind_of[T]} if op in ("And", "Or") else {"_.0": kind_of[T], "_.1": kind_of[T]})
+                        for pth in _pe(ev, 0, known):
+                            if pth["end"] == "return" and any(e[0] == "agg" and e[1].endswith("RuntimeErrorKind") and e[2] == "TypeMismatch" for e in pth["events"]):
+                                problems.append("%s %s %s" % (T, op, T))
+                                break
+            elif v == "Unary":
+                for T in sorted(exempt):
+                    if T not in kind_of:
+                        problems.append("%s (not a concrete type)" % T)
+                        continue
+                    from .c09 import single_operand_sets
+                    sos = single_operand_sets(ctx)
+                    for op, fits in (("Not", sos.get("unary-not") or ("Bool", "Null")), ("Minus", sos.get("unary-minus") or ("Number",))):
+                        if T not in fits:
+                            continue        # `minus true` / `not 1` are rejected statically
+                        for pth in _pe(ev, 0, {"expr": "Unary", "@UnaryOp": op, "_.1": kind_of[T]}):
+                            if pth["end"] == "return" and any(e[0] == "agg" and e[1].endswith("RuntimeErrorKind") and e[2] == "TypeMismatch" for e in pth["events"]):
+                                problems.append("%s %s" % (op, T))
+                                break
+            if not exempt:
+                ctx.bad("expr|%s|type-trap|no-types" % v, ce.where(C0), "cannot see which static operand types classify_expr's %s arm treats as safe" % v)
+            elif problems:
+                ctx.bad("expr|%s|type-trap|%s" % (v, ";".join(problems)[:60]), ce.where(C0), "classify_expr treats %s as unable to fail when the operands are statically %s, but the runtime can answer %s with Type mismatch" % (v.lower(), sorted(exempt), problems[:3]))
+            else:
+                ctx.ok("expr|%s|type-trap" % v, ce.where(C0), "trap-free only for operands statically typed %s, for which the runtime has no Type mismatch outcome" % sorted(exempt))
 
 
 def entry_discr_switch_of(fn, ty_suffix):
